@@ -218,11 +218,21 @@ def job_tables(job):
                     out['failures'].append({'config': cfg, 'what': 'cayley', 'I': eI, 'J': eJ, 'got': alg.cayley[eI, eJ], 'expected': exp})
                     break
         # a blade named e_ij..k (any spelling, also one the basis does not list) is the ordered product e_i e_j .. e_k
-        if alg.d <= 4:
+        if alg.d <= 5:
             nb = 0
             for name in list(alg.canon2bin):
                 gens = name[1:]
-                if not 2 <= len(gens) <= 4:
+                out['evaluations'] += 1
+                try:
+                    unit = {k: v for k, v in todict(alg.blades[name]).items() if v != 0}
+                except Exception as e:
+                    unit = repr(e)[:80]
+                if unit != {alg.canon2bin[name]: 1}:
+                    nb += 1
+                    if nb <= 3:
+                        out['failures'].append({'config': cfg, 'what': 'the blade handed out for a canonical name is not the unit blade of that name',
+                                                'name': name, 'got': str(unit), 'expected': str({alg.canon2bin[name]: 1})})
+                if not 2 <= len(gens) <= 4 or alg.d > 4:
                     continue
                 for perm in itertools.permutations(gens):
                     sp = 'e' + ''.join(perm)
